@@ -180,6 +180,30 @@ class Batch:
     def add_events(self, events, meta):
         self.items.append((events, meta))
 
+    def drift_check(self, verdict, limit=300):
+        """Replay a seeded sample of the recorded histories through BreadlogRun's own actions (RunTrace.tla); runs that
+        are not behaviours of the verified model are reported as SPEC-DRIFT (never a violation)."""
+        import random
+        # short writes split one model write into several system calls below the model's unit of content: not replayed
+        elig = [(evs, meta) for evs, meta in self.items if history.runtrace_eligible(evs)
+                and meta.get("sig", {}).get("fault") != "short" and "short=" not in json.dumps(meta.get("steps", ""))]
+        if not elig:
+            return
+        rnd = random.Random(common.seed() + 17)
+        if len(elig) > limit:
+            elig = rnd.sample(elig, limit)
+        accepted, allruns, r = history.runtrace([evs for evs, _ in elig])
+        acc = set(accepted)
+        rt = verdict.cov.setdefault("runtrace", {"runs": 0, "accepted": 0, "states": 0})
+        rt["runs"] += len(allruns)
+        rt["accepted"] += len(accepted)
+        rt["states"] += r.distinct
+        for (hi, li) in allruns:
+            if (hi, li) not in acc:
+                evs, meta = elig[hi]
+                verdict.drift.append("run ending at event %d of scenario %s steps %s is not a behaviour of BreadlogRun" % (
+                    li, meta.get("scenario"), json.dumps(meta.get("steps"), default=str)[:200]))
+
     def judge(self, verdict, props, signature_fn=None):
         """Run Observe over everything; attribute each reported violation of a property in `props` to its
         history; register violations / known findings with the verdict."""
@@ -190,6 +214,8 @@ class Batch:
         for evs, meta in self.items:
             offsets.append(n)
             n += len(evs)
+        if os.environ.get("VERIF_RUNTRACE", "1") != "0":
+            self.drift_check(verdict)
         viols, tr, nev = history.judge([evs for evs, _ in self.items], verdict)
         verdict.cov["traces_validated_against_impl"] += len(self.items)
         verdict.cov["trace_events"] = verdict.cov.get("trace_events", 0) + nev
